@@ -158,6 +158,8 @@ where
 
         match self.inner.get(key) {
             None => {
+                #[cfg(mini_moka_verif)]
+                crate::verif::switch(crate::verif::Point::GetAfterMap);
                 record(ReadOp::Miss(hash), now);
                 None
             }
@@ -173,6 +175,8 @@ where
                     std::mem::drop(entry);
                     // Expired or invalidated entry. Record this access as a cache miss
                     // rather than a hit.
+                    #[cfg(mini_moka_verif)]
+                    crate::verif::switch(crate::verif::Point::GetAfterMap);
                     record(ReadOp::Miss(hash), now);
                     None
                 } else {
@@ -181,6 +185,8 @@ where
                     let e = TrioArc::clone(arc_entry);
                     // Drop the entry to avoid to deadlock with record_read_op.
                     std::mem::drop(entry);
+                    #[cfg(mini_moka_verif)]
+                    crate::verif::switch(crate::verif::Point::GetAfterMap);
                     record(ReadOp::Hit(hash, e, now), now);
                     Some(v)
                 }
@@ -214,8 +220,12 @@ where
     }
 
     pub(crate) fn invalidate_all(&self) {
+        #[cfg(mini_moka_verif)]
+        crate::verif::switch(crate::verif::Point::InvalidateAllBefore);
         let now = self.inner.current_time_from_expiration_clock();
         self.inner.set_valid_after(now);
+        #[cfg(mini_moka_verif)]
+        crate::verif::switch(crate::verif::Point::InvalidateAllAfter);
     }
 }
 
@@ -643,7 +653,11 @@ where
     S: BuildHasher + Clone + Send + Sync + 'static,
 {
     fn sync(&self, max_repeats: usize) {
+        #[cfg(mini_moka_verif)]
+        crate::verif::switch(crate::verif::Point::SyncBeforeLock);
         let mut deqs = self.deques.lock().expect("lock poisoned");
+        #[cfg(mini_moka_verif)]
+        crate::verif::switch(crate::verif::Point::SyncLocked);
         let mut calls = 0;
         let mut should_sync = true;
 
@@ -656,11 +670,15 @@ where
             if r_len > 0 {
                 self.apply_reads(&mut deqs, r_len);
             }
+            #[cfg(mini_moka_verif)]
+            crate::verif::switch(crate::verif::Point::SyncAfterReads);
 
             let w_len = self.write_op_ch.len();
             if w_len > 0 {
                 self.apply_writes(&mut deqs, w_len, &mut counters);
             }
+            #[cfg(mini_moka_verif)]
+            crate::verif::switch(crate::verif::Point::SyncAfterWrites);
 
             if self.should_enable_frequency_sketch(&counters) {
                 self.enable_frequency_sketch(&counters);
@@ -674,6 +692,8 @@ where
         if self.has_expiry() || self.has_valid_after() {
             self.evict_expired(&mut deqs, batch_size::EVICTION_BATCH_SIZE, &mut counters);
         }
+        #[cfg(mini_moka_verif)]
+        crate::verif::switch(crate::verif::Point::SyncAfterExpire);
 
         // Evict if this cache has more entries than its capacity.
         let weights_to_evict = self.weights_to_evict(&counters);
@@ -690,6 +710,14 @@ where
         debug_assert_eq!(self.weighted_size.load(), current_ws);
         self.entry_count.store(counters.entry_count);
         self.weighted_size.store(counters.weighted_size);
+        #[cfg(mini_moka_verif)]
+        {
+            crate::verif::switch(crate::verif::Point::SyncAfterEvict);
+            // Release the mutex before reporting it, so that a scheduler never
+            // parks this thread at `SyncUnlocked` with the mutex still held.
+            std::mem::drop(deqs);
+            crate::verif::switch(crate::verif::Point::SyncUnlocked);
+        }
     }
 
     fn now(&self) -> Instant {
@@ -865,6 +893,8 @@ where
                 victim_nodes,
                 skipped_nodes: mut skipped,
             } => {
+                #[cfg(mini_moka_verif)]
+                crate::verif::switch(crate::verif::Point::UpsertBeforeVictims);
                 // Try to remove the victims from the cache (hash map).
                 for victim in victim_nodes {
                     let vic_elem = &unsafe { victim.as_ref() }.element;
@@ -890,6 +920,8 @@ where
             }
             AdmissionResult::Rejected { skipped_nodes: s } => {
                 skipped_nodes = s;
+                #[cfg(mini_moka_verif)]
+                crate::verif::switch(crate::verif::Point::UpsertBeforeReject);
                 // Remove the candidate from the cache (hash map).
                 self.remove_if_current(&kh.key, &entry);
             }
@@ -1288,6 +1320,149 @@ where
             self.has_expiration_clock.store(false, Ordering::SeqCst);
             *exp_clock = None;
         }
+    }
+}
+
+//
+// Verification hooks.
+//
+#[cfg(mini_moka_verif)]
+impl<K, V, S> Inner<K, V, S>
+where
+    K: Hash + Eq,
+    S: BuildHasher + Clone,
+{
+    pub(crate) fn verif_install_mock_clock(&self) -> crate::verif::MockClock {
+        let (clock, mock) = Clock::verif_mock();
+        let mut exp_clock = self.expiration_clock.write().expect("lock poisoned");
+        *exp_clock = Some(clock);
+        self.has_expiration_clock.store(true, Ordering::SeqCst);
+        crate::verif::MockClock { mock }
+    }
+
+    pub(crate) fn verif_frequency(&self, hash: u64) -> u8 {
+        self.frequency_sketch
+            .read()
+            .expect("lock poisoned")
+            .frequency(hash)
+    }
+
+    pub(crate) fn verif_sketch(&self) -> crate::verif::VerifSketch {
+        crate::verif::VerifSketch(
+            self.frequency_sketch
+                .read()
+                .expect("lock poisoned")
+                .verif_clone(),
+        )
+    }
+
+    pub(crate) fn verif_channel_lens(&self) -> (usize, usize) {
+        (self.read_op_ch.len(), self.write_op_ch.len())
+    }
+
+    pub(crate) fn verif_map_len(&self) -> usize {
+        self.cache.len()
+    }
+
+    pub(crate) fn verif_snapshot(
+        &self,
+        key_id: impl Fn(&K) -> u64,
+        value_id: impl Fn(&V) -> u64,
+    ) -> crate::verif::Snapshot {
+        use crate::verif::{DequeSnap, EntrySnap, NodeSnap, Snapshot};
+
+        let deqs = self.deques.lock().expect("lock poisoned");
+
+        let walk_ao = |deq: &Deque<KeyHashDate<K>>| {
+            let (nodes, errors) = deq.verif_walk();
+            let nodes = nodes
+                .into_iter()
+                .map(|n| {
+                    let e = &unsafe { n.as_ref() }.element;
+                    NodeSnap {
+                        addr: n.as_ptr() as usize,
+                        key: key_id(e.key()),
+                        hash: e.hash(),
+                        info_addr: e.entry_info() as *const EntryInfo<K> as usize,
+                        timestamp: e.entry_info().last_accessed().map(|t| t.verif_std()),
+                    }
+                })
+                .collect();
+            DequeSnap {
+                nodes,
+                len: deq.verif_len(),
+                errors,
+            }
+        };
+        let window = walk_ao(&deqs.window);
+        let probation = walk_ao(&deqs.probation);
+        let protected = walk_ao(&deqs.protected);
+
+        let write_order = {
+            let deq = &deqs.write_order;
+            let (nodes, errors) = deq.verif_walk();
+            let nodes = nodes
+                .into_iter()
+                .map(|n| {
+                    let e = &unsafe { n.as_ref() }.element;
+                    NodeSnap {
+                        addr: n.as_ptr() as usize,
+                        key: key_id(e.key()),
+                        hash: 0,
+                        info_addr: e.verif_entry_info() as *const EntryInfo<K> as usize,
+                        timestamp: e.verif_entry_info().last_modified().map(|t| t.verif_std()),
+                    }
+                })
+                .collect();
+            DequeSnap {
+                nodes,
+                len: deq.verif_len(),
+                errors,
+            }
+        };
+
+        let entries = self
+            .cache
+            .iter()
+            .map(|r| {
+                let entry = r.value();
+                let info: &EntryInfo<K> = entry.entry_info();
+                EntrySnap {
+                    key: key_id(r.key()),
+                    value: value_id(&entry.value),
+                    weight: info.policy_weight(),
+                    accounted_weight: Some(info.accounted_weight()),
+                    admitted: info.is_admitted(),
+                    dirty: info.is_dirty(),
+                    last_accessed: info.last_accessed().map(|t| t.verif_std()),
+                    last_modified: info.last_modified().map(|t| t.verif_std()),
+                    info_addr: info as *const EntryInfo<K> as usize,
+                    ao_node: info.access_order_q_node().map(|tagged| {
+                        let (node, tag) = tagged.decompose();
+                        (node.as_ptr() as usize, tag)
+                    }),
+                    wo_node: info.write_order_q_node().map(|n| n.as_ptr() as usize),
+                }
+            })
+            .collect();
+
+        let snap = Snapshot {
+            entries,
+            window,
+            probation,
+            protected,
+            write_order,
+            entry_count: self.entry_count.load(),
+            weighted_size: self.weighted_size.load(),
+            max_capacity: self.max_capacity,
+            read_ch_len: self.read_op_ch.len(),
+            write_ch_len: self.write_op_ch.len(),
+            sketch_enabled: self.frequency_sketch_enabled.load(Ordering::Acquire),
+            valid_after: self.valid_after().map(|t| t.verif_std()),
+            is_sync_running: false,
+        };
+        std::mem::drop(deqs);
+        snap
     }
 }
 
